@@ -1339,6 +1339,11 @@ class H2Connection:
         if acknowledged_size < 0:
             raise ValueError("Cannot acknowledge negative data")
 
+        if self.state_machine.state == ConnectionState.CLOSED:
+            # Nothing but GOAWAY may be sent on a closed connection, and the
+            # peer has no use for more window: there is nothing left to do.
+            return
+
         frames = []
 
         # Look the stream up first: if it never existed this call raises, and
